@@ -27,6 +27,7 @@ def corpus():
     return [
         "vlq.dec " + hx("A!A"),  # F1 witness (fixed): foreign byte
         "vlq.dec " + hx("AéA"),
+        "vlq.dec " + hx("A\u0141A"), "vlq.dec " + hx("\u0167"), "vlq.dec " + hx("AAA\u4e41"),   # code points whose low byte is a base64 digit
         "vlq.dec " + hx("0" * 14),  # test_overflow
         "vlq.dec " + hx("g" * 13),
         "vlq.dec " + hx("g" * 12 + "A"),
@@ -80,7 +81,7 @@ def generate(tier, rng, hist):
                 s += B64[rng.below(32)]
         if rng.chance(0.05):
             pos = rng.below(len(s) + 1)
-            s = s[:pos] + rng.choice(["!", "=", " ", ",", ";", "é", "\x7f", "-", "_"]) + s[pos:]
+            s = s[:pos] + rng.choice(["!", "=", " ", ",", ";", "é", "\x7f", "-", "_", "\u0141", "\u0167", "\u4e41"]) + s[pos:]
             bump(hist, "foreign_byte")
         bump(hist, "rand_len_%02d" % min(len(s), 40))
         out.append("vlq.dec " + hx(s))
